@@ -29,7 +29,7 @@ from eos.solar_system.exception import ItemSolarSystemMismatchError  # noqa: E40
 KIND = {Character: 0, Ship: 1, Stance: 2, Subsystem: 3, ModuleHigh: 4, ModuleMid: 5, ModuleLow: 6, Rig: 7,
         Drone: 8, FighterSquad: 9, Skill: 10, Implant: 11, Booster: 12, EffectBeacon: 13, Charge: 14,
         Autocharge: 15}
-KIND_NAMES = {'ship': Ship, 'stance': Stance, 'subsystem': Subsystem, 'mh': ModuleHigh, 'mm': ModuleMid,
+KIND_NAMES = {'character': Character, 'ship': Ship, 'stance': Stance, 'subsystem': Subsystem, 'mh': ModuleHigh, 'mm': ModuleMid,
               'ml': ModuleLow, 'rig': Rig, 'drone': Drone, 'fighter': FighterSquad, 'skill': Skill,
               'implant': Implant, 'booster': Booster, 'beacon': EffectBeacon, 'charge': Charge}
 SET_KINDS = {'subsystem': 'subsystems', 'rig': 'rigs', 'drone': 'drones', 'fighter': 'fighters',
@@ -68,6 +68,14 @@ class Universe:
                 ids.append(special.pop())
             else:
                 ids.append(pool.pop(rnd.randrange(len(pool))))
+        self.pymods = p.get('pymods', False)
+        if self.pymods:
+            # attributes the python modifiers (ancillary armor repairer, propulsion modules) read and write; these
+            # universes are for impl-level oracles only (the Lean spec does not model python modifiers)
+            ids[0] = int(AttrId.max_velocity)
+            ids[1] = int(AttrId.armor_dmg_amount)
+            ids[n - 4:n] = [int(AttrId.charged_armor_dmg_mult), int(AttrId.mass), int(AttrId.speed_factor),
+                            int(AttrId.speed_boost_factor)]
         # skill level attribute ranks above the plain ones (skills expose it through an override)
         ids.append(SKILL_LEVEL)
         self.fleet = p.get('fleet', False)
@@ -92,19 +100,39 @@ class Universe:
         cats = [EffectCategoryId.passive, EffectCategoryId.online, EffectCategoryId.active,
                 EffectCategoryId.overload, EffectCategoryId.system]
         proj = p.get('projected', True)
+        bias = p.get('proj_bias', False)
+        self.resist_attrs = []
         for k in range(p.get('neff', 9)):
-            if proj and rnd.random() < 0.3:
+            forced = bias and k < p.get('neff', 9) // 2
+            if forced or (proj and rnd.random() < 0.3):
                 cat = EffectCategoryId.target
             else:
                 cat = rnd.choice(cats)
             mods = []
             lowest_tgt = n
-            for _ in range(rnd.randint(1, 3)):
-                ti = rnd.randrange(0, n - 1)
+            for j in range(2 if forced else rnd.randint(1, 3)):
+                ti = rnd.randrange(0, n - 2 if forced else n - 1)
                 si = rnd.randrange(ti + 1, n + 1)            # may be the skill level attribute
                 lowest_tgt = min(lowest_tgt, ti)
                 filt = rnd.choice(list(ModAffecteeFilter))
-                if cat == EffectCategoryId.target and rnd.random() < 0.8:
+                if forced:
+                    filt = [ModAffecteeFilter.item, rnd.choice([ModAffecteeFilter.domain, ModAffecteeFilter.domain_group,
+                                                                ModAffecteeFilter.domain_skillrq])][j]
+                if forced and not self.resist_attrs and bias:
+                    pass
+                if not forced and bias and self.resist_attrs and cat != EffectCategoryId.target and rnd.random() < 0.5:
+                    # a local effect that changes a resistance attribute of the ship
+                    ra = rnd.choice(self.resist_attrs)
+                    ri = ids.index(ra)
+                    if ri + 1 < n + 1:
+                        mods.append(DogmaModifier(
+                            affectee_filter=ModAffecteeFilter.item, affectee_domain=ModDomain.ship,
+                            affectee_attr_id=ra, operator=rnd.choice([ModOperator.post_mul, ModOperator.mod_add,
+                                                                      ModOperator.post_percent]),
+                            aggregate_mode=ModAggregateMode.stack, aggregate_key=None,
+                            affector_attr_id=ids[rnd.randrange(ri + 1, n + 1)] if ri + 1 < n else ids[n]))
+                        continue
+                if cat == EffectCategoryId.target and (forced or rnd.random() < 0.8):
                     dom = ModDomain.target
                     if filt == ModAffecteeFilter.owner_skillrq and rnd.random() < 0.5:
                         filt = ModAffecteeFilter.item
@@ -131,9 +159,12 @@ class Universe:
                     affector_attr_id=ids[si]))
             resist = None
             if cat == EffectCategoryId.target and all(m.affectee_domain == ModDomain.target for m in mods) \
-                    and rnd.random() < 0.5 and lowest_tgt + 1 < n:
+                    and all(m.affectee_filter != ModAffecteeFilter.owner_skillrq for m in mods) \
+                    and (forced or rnd.random() < 0.5) and lowest_tgt + 1 < n:
                 tis = [ids.index(m.affectee_attr_id) for m in mods]
                 resist = ids[rnd.randrange(max(tis) + 1, n)] if max(tis) + 1 < n else None
+                if resist is not None:
+                    self.resist_attrs.append(resist)
             chance = None
             if cat == EffectCategoryId.passive and rnd.random() < 0.25:
                 chance = rnd.choice(self.plain)
@@ -169,6 +200,28 @@ class Universe:
                           ('beacon', 1)):
             for _ in range(cnt):
                 self._mktype(rnd, kind, None)
+        if self.pymods:
+            from eos.const.eve import TypeId as _T
+            aar = ch.mkeffect(effect_id=int(EffectId.fueled_armor_repair), category_id=EffectCategoryId.active)
+            ab = ch.mkeffect(effect_id=int(EffectId.module_bonus_afterburner), category_id=EffectCategoryId.active)
+            mwd = ch.mkeffect(effect_id=int(EffectId.module_bonus_microwarpdrive), category_id=EffectCategoryId.active)
+            for eff in (aar, aar, ab, mwd):
+                extra = rnd.sample(self.effects, rnd.randint(0, 2))
+                attrs = {int(AttrId.armor_dmg_amount): rnd.choice([50, 100]),
+                         int(AttrId.charged_armor_dmg_mult): rnd.choice([2, 3]),
+                         int(AttrId.speed_factor): rnd.choice([100, 500]),
+                         int(AttrId.speed_boost_factor): rnd.choice([1000, 1500])}
+                t = ch.mktype(group_id=rnd.choice(self.groups), category_id=TypeCategoryId.module, attrs=attrs,
+                              effects=[eff, self.online] + extra, default_effect=eff)
+                self.types.setdefault('mm', []).append(t.id)
+                self.types.setdefault('mm_py', []).append(t.id)
+            paste = ch.mktype(type_id=int(_T.nanite_repair_paste), category_id=TypeCategoryId.charge,
+                              attrs={a: rnd.choice(self.vals) for a in rnd.sample(self.plain, 2)})
+            self.types['charge'] += [paste.id] * 3
+            for tid0 in self.types['ship']:
+                t0 = ch.types[tid0]
+                t0.attrs.setdefault(int(AttrId.mass), rnd.choice([1000, 2000, 0]))
+                t0.attrs.setdefault(int(AttrId.max_velocity), rnd.choice([100, 250]))
         # the character type every Fit instantiates
         from eos.const.eve import TypeId
         self._mktype(rnd, 'character', int(TypeId.character_static))
@@ -194,12 +247,15 @@ class Universe:
         if kind in ('mh', 'mm', 'ml', 'drone', 'fighter') and rnd.random() < 0.7:
             effs.append(self.online)
         tgt_effs = [e for e in self.effects if e.category_id == EffectCategoryId.target]
-        if kind in ('mh', 'mm', 'drone') and tgt_effs and rnd.random() < 0.45:
+        if kind in ('mh', 'mm', 'drone') and tgt_effs and rnd.random() < (0.85 if self.p.get('proj_bias') else 0.45):
             effs = [e for e in effs if e.category_id != EffectCategoryId.target] + [rnd.choice(tgt_effs)]
             effs = effs[::-1]
         cand = [e for e in effs if e.category_id in (EffectCategoryId.active, EffectCategoryId.target)]
         de = rnd.choice(cand) if cand and rnd.random() < 0.8 else None
         attrs = {a: rnd.choice(self.vals) for a in rnd.sample(self.plain, rnd.randint(1, len(self.plain)))}
+        if kind in ('ship', 'drone') and self.p.get('proj_bias'):
+            for ra in self.resist_attrs:
+                attrs.setdefault(ra, rnd.choice([0.5, 0.25, 1, 0, 2]))
         rs = {s: rnd.randint(1, 5) for s in rnd.sample(self.skill_types, rnd.randint(0, 2))}
         if tid is None and rnd.random() < self.p.get('disjoint', 0.2):
             tid = next(self._own)      # a type id only this source knows
@@ -554,6 +610,30 @@ class OpGen:
                 pre.append(('target', it._vid, None))
         return pre
 
+    def _item_filter_projector(self, w, it):
+        """Could `it` (under any of the world's sources) carry a projectable effect with an item-filter
+        modifier?  Only those record their target at application time (K1); location-filtered projections are
+        keyed by the target's fit and survive an unload / reload of the target."""
+        for u in w.unis:
+            t = u.ch.types.get(it._type_id)
+            if t is None:
+                continue
+            for e in t.effects.values():
+                if e.category_id == EffectCategoryId.target and any(
+                        m.affectee_domain == ModDomain.target and m.affectee_filter == ModAffecteeFilter.item
+                        for m in e.modifiers):
+                    return True
+        return False
+
+    def _untarget_reload(self, w):
+        """Pre-ops for an op that unloads and reloads items in place (source switch): only projectors with
+        item-filter projected modifiers have to let go of their targets."""
+        pre = []
+        for it in w.all_items():
+            if getattr(it, 'target', None) is not None and self._item_filter_projector(w, it):
+                pre.append(('target', it._vid, None))
+        return pre
+
     def _subtree(self, it):
         return {id(it)} | {id(c) for c in it._child_item_iter(skip_autoitems=True)}
 
@@ -563,6 +643,26 @@ class OpGen:
         fits = w.ss_fits()
         if not fits:
             return [('add_fit',)]
+        if self.p.get('prefill') and not getattr(self, '_prefilled', False):
+            # start from a populated world: every fit gets a ship and a few active modules
+            self._prefilled = True
+            anyu0 = w.uni or w.unis[0]
+            ops = [('add_fit',)] * (self.max_fits - len(fits))
+            nfit = self.max_fits
+            vids = [f._vid for f in fits]
+            nxt = max(list(w.fits) + list(w.items) + [0])
+            for k in range(self.max_fits - len(fits)):
+                vids.append(nxt + 1 + 2 * k)
+            for fv in vids:
+                ops.append(('set_single', fv, 'ship', 'ship', rnd.choice(anyu0.types['ship'])))
+                for _ in range(2):
+                    kind = rnd.choice(['mh', 'mm'])
+                    ops.append(('rack', fv, RACKS[kind], 'equip', 0, kind, rnd.choice(anyu0.types[kind]), 3, None))
+                ops.append(('add', fv, 'rig', rnd.choice(anyu0.types['rig']), 1, 0))
+                if getattr(anyu0, 'pymods', False):
+                    for _ in range(2):
+                        ops.append(('rack', fv, 'mid', 'equip', 0, 'mm', rnd.choice(anyu0.types['mm_py']), 3, 28668))
+            return ops
         if rnd.random() < self.malformed:
             op = self._malformed(w)
             if op:
@@ -581,8 +681,9 @@ class OpGen:
             return rnd.choice(src.types[kind])
         weights = {
             'add_fit': 3 if len(fits) < self.max_fits and len(w.fits) < self.max_fits + 1 else 0,
-            'remove_fit': 1 if len(fits) > 1 and ship_ok else 0,
-            'readd_fit': 2 if ship_ok and any(ft.solar_system is None for ft in w.fits.values()) else 0,
+            'remove_fit': 1 if len(fits) > 1 and (ship_ok or f.fleet is None) else 0,
+            'readd_fit': 2 if any(ft.solar_system is None and (ship_ok or ft.fleet is None)
+                                  for ft in w.fits.values()) else 0,
             'ship': 6 if ship_ok else 0,
             'single': 3,
             'add': 12,
@@ -609,14 +710,15 @@ class OpGen:
             pre = self._untarget(w, doomed) if self.avoid_k1 else []
             return pre + [('remove_fit', f._vid)]
         if k == 'readd_fit':
-            return [('readd_fit', rnd.choice([fid for fid, ft in w.fits.items() if ft.solar_system is None]))]
+            return [('readd_fit', rnd.choice([fid for fid, ft in w.fits.items()
+                                              if ft.solar_system is None and (ship_ok or ft.fleet is None)]))]
         if k == 'ship':
             pre = []
             if f.ship is not None and self.avoid_k1:
                 pre = self._untarget(w, self._subtree(f.ship))
             return pre + [('set_single', f._vid, 'ship', 'ship', None if rnd.random() < 0.1 else tid('ship'))]
         if k == 'single':
-            slot, kind = rnd.choice([('stance', 'stance'), ('effect_beacon', 'beacon')])
+            slot, kind = rnd.choice([('stance', 'stance'), ('effect_beacon', 'beacon'), ('character', 'character')])
             return [('set_single', f._vid, slot, kind, None if rnd.random() < 0.3 else tid(kind))]
         if k == 'add':
             kind = rnd.choice(['skill', 'skill', 'implant', 'booster', 'subsystem', 'rig', 'drone', 'drone', 'fighter'])
@@ -674,7 +776,7 @@ class OpGen:
         if k == 'source':
             choices = [i for i in list(range(len(w.unis))) + [None] if i != w.src]
             if choices:
-                pre = self._untarget(w, {id(i) for i in items}) if self.avoid_k1 else []
+                pre = self._untarget_reload(w) if self.avoid_k1 else []
                 return pre + [('source', rnd.choice(choices))]
         if k == 'fleet':
             if f.fleet is None:
@@ -753,9 +855,13 @@ def rebuild(w):
         c._vid = it._vid
         n.items[it._vid] = c
         m[it._vid] = c
-        eids = set()
+        eids = {-1, -2}          # eos-specific effects added by type customisation
+        eids.update(it._type_effects)
         for u in w.unis:
             eids.update(u.ch.effects)
+            t = u.ch.types.get(it._type_id)
+            if t is not None:
+                eids.update(t.effects)
         for eid in sorted(eids):
             mode = it.get_effect_mode(eid)
             if int(mode) != 1:
@@ -765,13 +871,7 @@ def rebuild(w):
         g = Fit(solar_system=n.ss)
         g._vid = f._vid
         n.fits[f._vid] = g
-        g.character._vid = f.character._vid
-        n.items[f.character._vid] = g.character
-        m[f.character._vid] = g.character
-        for eid in list(f.character._type_effects):
-            mode = f.character.get_effect_mode(eid)
-            if int(mode) != 1:
-                g.character.set_effect_mode(eid, mode)
+        g.character = None
         nf[f._vid] = g
     for f in w.ss_fits():
         if f.fleet is not None:
@@ -782,6 +882,8 @@ def rebuild(w):
             g.ship = clone(f.ship)
     for f in w.ss_fits():
         g = nf[f._vid]
+        if f.character is not None:
+            g.character = clone(f.character)
         if f.stance is not None:
             g.stance = clone(f.stance)
         if f.effect_beacon is not None:
